@@ -905,8 +905,6 @@ class AstToCfg(ast.NodeVisitor):
 
     if node.type is not None:
       self.visit(node.type)
-    if node.name is not None:
-      self.visit(node.name)
 
     for stmt in node.body:
       self.visit(stmt)
